@@ -205,22 +205,32 @@ def call (E : Env) (s : PState) (f : Nat) : Beh :=
 
 abbrev Toks := List String
 
-/-- mocker.go:57 `baseMocker` of the `DefMocker` cached under builder `b` for function `f` -/
+/-- mocker.go:57 `baseMocker` of the `DefMocker`/`MethodMocker` cached under builder `b` for function `f`.
+    `whenRes`/`conds` are the mocker's `When` (nil ⇔ `whenRes = none`): the results handed to its default rule so far,
+    and its conditional rules in the order they were added (argument tokens ↦ result).  Which element of a result
+    *sequence* a call receives is C05; which rule wins among overlapping expression rules is C04.  C01 needs:
+    exact-value rules are judged on the argument values of *this* call, first match wins, else the default. -/
 structure Mocker where
   imp : Option Addr
-  whenRes : Option (List Toks)  -- `when` with the results given to it so far (which one a call gets is C04/C05)
+  whenRes : Option (List Toks)
+  conds : List (Toks × Toks)
   guard : Option Nat
   canceled : Bool
 
 structure AState where
   p : PState
-  mockers : Nat → Nat → Option Mocker     -- builder → function → cached mocker (builder.go:104 `Func`)
+  mockers : Nat → Nat → Option Mocker     -- builder → function → cached mocker (builder.go `Func` / cache.go `Method`)
 
 def ainit (E : Env) : AState := { p := init E, mockers := fun _ _ => none }
 
 inductive AOp where
-  | applyCb (b f : Nat) (v : RValue) (k : Nat) (code : Addr)   -- b.Func(f).Apply(cb)
-  | ret (b f : Nat) (v : RValue) (code : Addr) (res : Toks)    -- b.Func(f).Return(res...); `v` = where MakeFunc would allocate
+  /-- `h.Apply(cb)`; `kept = false`: `h` is fetched from the builder now (`b.Func(f)`), `kept = true`: `h` is a handle the
+      test kept from an earlier fetch (possibly across `Reset`) -/
+  | applyCb (b f : Nat) (kept : Bool) (v : RValue) (k : Nat) (code : Addr)
+  /-- `h.Return(res...)`; `v` = where `reflect.MakeFunc` allocates if a stub is built -/
+  | ret (b f : Nat) (kept : Bool) (v : RValue) (code : Addr) (res : Toks)
+  /-- `h.When(cond...).Return(res...)` -/
+  | whenRet (b f : Nat) (kept : Bool) (v : RValue) (code : Addr) (cond res : Toks)
   | reset (b : Nat)                                            -- b.Reset()
   | gc (keep : Addr → Bool)
   | other (op : Op)                                            -- a well-used low-level step by someone else
@@ -228,38 +238,51 @@ inductive AOp where
 def setM (s : AState) (b f : Nat) (m : Mocker) : AState :=
   { s with mockers := fun b' f' => if b' = b ∧ f' = f then some m else s.mockers b' f' }
 
-/-- builder.go:104 `Func`: cached mocker unless it was canceled -/
-def getM (s : AState) (b f : Nat) : Mocker :=
-  match s.mockers b f with
-  | some m => if m.canceled then { imp := none, whenRes := none, guard := none, canceled := false } else m
-  | none => { imp := none, whenRes := none, guard := none, canceled := false }
+def freshM : Mocker := { imp := none, whenRes := none, conds := [], guard := none, canceled := false }
 
-/-- mocker.go:89 `applyByFunc`: `proxy.Func` → `patch.Trampoline` → `replaceFunc`; on error panic (mocker unchanged);
-    else `m.guard = guard; m.guard.Apply(); m.imp = callback` -/
-def doApply (E : Env) (s : AState) (b f : Nat) (m : Mocker) (v : RValue) (o : Obj) : AState × Outcome :=
+/-- builder.go `Func` (cache.go `Method`): the cached mocker unless it was canceled — a kept handle is used as it is -/
+def getM (s : AState) (b f : Nat) (kept : Bool) : Mocker :=
+  match s.mockers b f with
+  | some m => if m.canceled && !kept then freshM else m
+  | none => freshM
+
+/-- mocker.go `applyByFunc`/`applyByMethod`: `proxy.Func` → `patch.Trampoline` → `replaceFunc`; on error panic (mocker
+    unchanged); else `m.guard = guard; m.guard.Apply(); m.imp = callback; m.canceled = false`.
+    `clearWhen`: `DefMocker.Apply`/`MethodMocker.Apply` set `m.when = nil` after a successful `doApply`
+    ("Apply discards the When", so a later Return/When is built and installed afresh). -/
+def doApply (E : Env) (s : AState) (b f : Nat) (m : Mocker) (clearWhen : Bool) (v : RValue) (o : Obj) : AState × Outcome :=
   match replace E s.p f v o with
-  | (p1, .ok g) => (setM { s with p := applyG p1 g } b f { m with guard := some g, imp := some (getPtr v) }, .ok g)
+  | (p1, .ok g) =>
+    (setM { s with p := applyG p1 g } b f
+      { m with guard := some g, imp := some (getPtr v), canceled := false,
+               whenRes := if clearWhen then none else m.whenRes, conds := if clearWhen then [] else m.conds }, .ok g)
   | (p1, out) => (setM { s with p := p1 } b f m, out)
 
-/-- mocker.go:160 `Cancel`: `guard.Cancel()` = `UnpatchWithLock`; `when = nil`; `canceled = true` -/
+/-- mocker.go `Cancel`: `guard.Cancel()` = `UnpatchWithLock`; `when = nil`; `canceled = true` -/
 def cancelM (s : AState) (b f : Nat) : AState :=
   match s.mockers b f with
   | some m =>
     let p1 := match m.guard with
       | some g => unpatchG s.p g
       | none => s.p
-    setM { s with p := p1 } b f { m with whenRes := none, canceled := true }
+    setM { s with p := p1 } b f { m with whenRes := none, conds := [], canceled := true }
   | none => s
 
 def astepO (E : Env) (s : AState) : AOp → AState × Outcome
-  | .applyCb b f v k code => doApply E s b f (getM s b f) v { code := code, ctx := .cb k }
-  | .ret b f v code res =>
-    let m := getM s b f
+  | .applyCb b f kept v k code => doApply E s b f (getM s b f kept) true v { code := code, ctx := .cb k }
+  | .ret b f kept v code res =>
+    let m := getM s b f kept
     match m.whenRes with
-    | some rs => (setM s b f { m with whenRes := some (rs ++ [res]) }, .ok 0)   -- mocker.go:548 m.when.Return(value...): one more result, nothing re-applied
+    | some rs => (setM s b f { m with whenRes := some (rs ++ [res]) }, .ok 0)   -- `m.when.Return(value...)`: one more result, nothing re-applied
     | none =>
-      -- mocker.go:135 whens: m.imp = reflect.MakeFunc(when.funcTyp, m.callback); m.when = when ; then doApply(m.imp)
-      doApply E s b f { m with whenRes := some [res] } v { code := code, ctx := .stub b f }
+      -- mocker.go `whens`: m.imp = reflect.MakeFunc(when.funcTyp, m.callback); m.when = when ; then doApply(m.imp)
+      doApply E s b f { m with whenRes := some [res], conds := [] } false v { code := code, ctx := .stub b f }
+  | .whenRet b f kept v code cond res =>
+    let m := getM s b f kept
+    match m.whenRes with
+    | some _ => (setM s b f { m with conds := m.conds ++ [(cond, res)] }, .ok 0)   -- `m.when.When(cond...).Return(res...)`: one more rule
+    | none =>
+      doApply E s b f { m with whenRes := some [], conds := [(cond, res)] } false v { code := code, ctx := .stub b f }
   | .reset b => ((List.range E.nf).foldl (fun s f => cancelM s b f) s, .ok 0)
   | .gc keep => ({ s with p := gc E s.p keep }, .ok 0)
   | .other op => ({ s with p := step E s.p op }, .ok 0)
@@ -275,22 +298,28 @@ inductive Seen where
   | orig | cb (k : Nat) | stubRet (res : List Toks) | stubOrig | stubPanic | crash
   deriving DecidableEq, Repr
 
-/-- mocker.go:142 `callback` of the mocker the stub is bound to, read at call time -/
-def callbackOf (s : AState) (b f : Nat) : Seen :=
+/-- when.go `invoke`: the first rule whose condition equals the arguments of this call, else the default -/
+def whenInvoke (conds : List (Toks × Toks)) (dflt : List Toks) (args : Toks) : Seen :=
+  match conds.find? (fun c => c.1 == args) with
+  | some c => .stubRet [c.2]
+  | none => if dflt.isEmpty then .stubPanic else .stubRet dflt
+
+/-- mocker.go `callback` of the mocker the stub is bound to, read at call time with the arguments of the call -/
+def callbackOf (s : AState) (b f : Nat) (args : Toks) : Seen :=
   match s.mockers b f with
   | some m =>
     if m.canceled then .stubOrig
     else match m.whenRes with
-      | some r => .stubRet r
+      | some r => whenInvoke m.conds r args
       | none => .stubPanic
   | none => .stubPanic
 
-def see (E : Env) (s : AState) (f : Nat) : Seen :=
+def see (E : Env) (s : AState) (f : Nat) (args : Toks) : Seen :=
   match call E s.p f with
   | .orig => .orig
   | .enter o _ => (match o.ctx with
     | .cb k => .cb k
-    | .stub b f' => callbackOf s b f')
+    | .stub b f' => callbackOf s b f' args)
   | .wild => .crash
 
 end C01M
